@@ -217,6 +217,14 @@ def alphabet_U2(conf, bulk=True, nodes=True):
         ops += bulk_ops(conf, bsp)
         ops.append(('bulk', 'from', 'm', ((0, 1), (1, 2)), None, None))
         ops.append(('bulk', 'path', 'm', (0, 1, 2), None, None))
+        # every other helper without t too, in both call forms, naming a node (3) that no add ever mentions: a helper that
+        # registers nodes before it validates leaves it behind
+        if conf['cls'] == 'DynGraph':
+            ops.append(('bulk', 'star', 'm', (3, 0, 1), None, None))
+            ops.append(('bulk', 'cycle', 'm', (3, 0, 1), None, None))
+        ops.append(('bulk', 'star', 'f', (3, 0, 1), None, None))
+        ops.append(('bulk', 'cycle', 'f', (2, 3, 0), None, None))
+        ops.append(('bulk', 'path', 'f', (3, 2), None, None))
         # long bulk calls: a 10-link walk that revisits a hub and a 9-element bunch with interleaved sources
         ops.append(('bulk', 'path', 'm', (0, 1, 2, 0, 3, 1, 3, 2, 1, 0, 2), 1, None))
         ops.append(('bulk', 'from', 'm', ((0, 1), (2, 3), (0, 2), (1, 3), (0, 3), (2, 1), (3, 0), (1, 2), (0, 0)), w - 1, None))
